@@ -227,11 +227,15 @@ def unwatchAll (t : Nat) (watch : List (List (Nat × List Nat))) : List (List (N
 
 def World.setTgt (w : World) (t : Nat) (tg : Target) : World := { w with tgts := w.tgts.set t tg }
 
-/-- src: Parameters._update_ref -/
-def updateRef (c : Cfg) (t p : Nat) (r : Rhs) (w : World) : World :=
+/-- src: Parameters._update_ref(name, ref) — `ref = none` is `Undefined`: the link is removed.
+Unwatch *all* ref watchers of the object, build the new refs dict, recompute the dependencies of
+every remaining link (`self_[name].nested_refs`), re-install one watcher per owner. -/
+def updateRef (c : Cfg) (t p : Nat) (r : Option Rhs) (w : World) : World :=
   match w.tgts[t]?, c.decls[t]? with
   | some tg, some ds =>
-    let refs := dictSet tg.refs p r
+    let refs := match r with
+      | some r => dictSet tg.refs p r
+      | none => dictDel tg.refs p            -- `dict(refs, name=Undefined)` then `del refs[name]`
     { w with watch := setupRefs c t (allDeps ds refs) (unwatchAll t w.watch),
              tgts := w.tgts.set t { tg with refs := refs } }
   | _, _ => w
@@ -239,18 +243,15 @@ def updateRef (c : Cfg) (t p : Nat) (r : Rhs) (w : World) : World :=
 /-- the deferred link change of `Parameter.__set__` -/
 inductive Relink
   | keep                 -- no reference involved
-  | drop                 -- plain value on a linked parameter: `del refs[name]`
+  | drop                 -- plain value on a linked parameter: `_update_ref(name, Undefined)`
   | link (r : Rhs)       -- `_update_ref(name, ref)`
   deriving Repr, DecidableEq
 
 def applyRelink (c : Cfg) (t p : Nat) (rl : Relink) (w : World) : World :=
   match rl with
   | .keep => w
-  | .drop =>
-    match w.tgts[t]? with
-    | some tg => w.setTgt t { tg with refs := dictDel tg.refs p }
-    | none => w
-  | .link r => updateRef c t p r w
+  | .drop => updateRef c t p none w
+  | .link r => updateRef c t p (some r) w
 
 /-! ### the setter -/
 
